@@ -218,7 +218,7 @@ pub fn property() -> Property {
     Property {
         id: "C18",
         level: "fault_enumeration",
-        rule: "crash points = prefix lengths. generated: a rich generated file (every section kind, segments, tables placed directly behind the ELF header in 84% of cases so that most prefixes still open; a minority with header overrides/corruption); EVERY prefix length 0..len-1 for files <= 4 KiB, otherwise 256 lengths (all structure boundaries +-1 plus random); a fixed query plan derived from the complete file (ehdr, counts, every section/program header, every section's data and typed views, section names, by-name lookups, both symbol tables with names, dynamic, hash lookups of all names, version queries) is evaluated to Result<content digest>; oracle: on a prefix every Ok answer equals the complete file's answer (slice parser on every prefix, stream parser on a third of them or all for files <= 1 KiB), and after appending 1..4096 arbitrary bytes every Ok answer of the file is unchanged and the file still opens. samples: the 10 linker-produced sample objects with 256 sampled prefix lengths each. Non-trivial: a base file with a prefix that still opens and on which at least one query is Ok and at least one is Err; distinct by file hash.",
+        rule: "crash points = prefix lengths. generated: a rich generated file (every section kind, segments, tables placed directly behind the ELF header in 84% of cases so that most prefixes still open; a minority with header overrides/corruption; 27% declare one record-structured section smaller than its body; about 1% use the extended-numbering escape values although the counts would fit); EVERY prefix length 0..len-1 for files <= 4 KiB, otherwise 256 lengths (all structure boundaries +-1 plus random); a fixed query plan derived from the complete file (ehdr, counts, every section/program header, every section's data and typed views, section names, by-name lookups, both symbol tables with names, dynamic, hash lookups of all names, version queries) is evaluated to Result<content digest>; oracle: parse_ident on every prefix of the first 20 bytes gives an error or the complete ident's answer; on a prefix every Ok answer equals the complete file's answer (slice parser on every prefix, stream parser on a third of them or all for files <= 1 KiB), and after appending 1..4096 arbitrary bytes every Ok answer of the file is unchanged and the file still opens. samples: the 10 linker-produced sample objects with 256 sampled prefix lengths each. Non-trivial: a base file with a prefix that still opens and on which at least one query is Ok and at least one is Err; distinct by file hash.",
         assumptions: &["the extension clause is checked in the sound direction only (an out-of-file range legitimately turns from Err to Ok when bytes are appended)", "digests cover content, not error kinds"],
         subs: vec![Sub::new("generated", oracle_generated, 1400, 15_000, 500_000).shrink(400), Sub::enumerated("samples", oracle_sample, enum_samples, false), Sub::new("generated_raw", oracle_raw, 300, 2_000, 20_000).shrink(400)],
         extras: vec![crate::fuzz::c18_campaign],
